@@ -34,8 +34,10 @@ func (obj Symbol) Readably(b []byte, p *Printer) []byte {
 	if obj[0] == ':' {
 		return append(b, p.caseName(string(obj))...)
 	}
-	for _, c := range []byte(obj) {
-		if needPipeMap[c] == 'x' {
+	for i, c := range []byte(obj) {
+		// The reader takes & as the first character of a token (&optional,
+		// &rest, ...) but not inside one.
+		if needPipeMap[c] == 'x' && (c != '&' || 0 < i) {
 			b = append(b, '|')
 			b = append(b, p.caseName(string(obj))...)
 			return append(b, '|')
